@@ -25,6 +25,9 @@ type E2ECase struct {
 	// HostName: the endpoints are configured by host name (http://localhost:<port>), as several
 	// instances on one machine usually are
 	HostName bool `json:"host_name,omitempty"`
+	// Vision: every endpoint lists a vision model and the requests carry an image part, so the
+	// candidates pass through the capability filter before they reach the balancer
+	Vision bool `json:"vision,omitempty"`
 }
 
 func runE2E(c E2ECase) []ev.Violation {
@@ -43,15 +46,25 @@ func runE2E(c E2ECase) []ev.Violation {
 		eps = append(eps, rig.EP{Backend: i, Priority: c.Prio[i], HostName: c.HostName})
 		r.Raw[i].SetScript(backend.OK(200, [][2]string{{"Content-Type", "application/json"}}, 16, "cl", r.Raw[i].ID))
 	}
-	if _, _, err := r.Setup(eps); err != nil {
+	_, urls, err := r.Setup(eps)
+	if err != nil {
 		rec.Inconclusive("setup: " + err.Error())
 		return nil
+	}
+	reqBody := []byte(`{"q":1}`)
+	if c.Vision {
+		for _, u := range urls {
+			_ = r.S.RegisterModels(u, "llava:7b", "vm-c06")
+		}
+		time.Sleep(60 * time.Millisecond) // asynchronous unification
+		reqBody = []byte(`{"model":"llava:7b","messages":[{"role":"user","content":[{"type":"text","text":"what is this?"},{"type":"image_url","image_url":{"url":"data:image/png;base64,iVBORw0KGgo="}}]}]}`)
+		rec.Class("e2e/requests-pass-the-capability-filter")
 	}
 	total := n * c.K
 	counts := make([]int, n)
 	order := ""
 	for q := 0; q < total; q++ {
-		req := rawclient.Request("POST", "/olla/proxy/v1/chat/completions", [][2]string{{"Content-Type", "application/json"}, {"Connection", "close"}}, []byte(`{"q":1}`), nil)
+		req := rawclient.Request("POST", "/olla/proxy/v1/chat/completions", [][2]string{{"Content-Type", "application/json"}, {"Connection", "close"}}, reqBody, nil)
 		resp, err := rawclient.Do(r.S.Addr, req, 10*time.Second)
 		if err != nil || resp.Status != 200 {
 			rec.Inconclusive(fmt.Sprintf("request %d: %v", q, err))
@@ -108,5 +121,6 @@ func genE2E(t *rapid.T) E2ECase {
 	}
 	c.K = rapid.IntRange(3, 8).Draw(t, "k")
 	c.HostName = rapid.IntRange(0, 2).Draw(t, "hostname") == 0
+	c.Vision = rapid.IntRange(0, 2).Draw(t, "vision") == 0
 	return c
 }
